@@ -240,7 +240,6 @@ def h_server(sym, mode, op, P, K, lims, maxlen):
     for k in range(DRAIN):
         st.serviceAll()
     seen = st.rxPkts.seen
-    sym.check(all(isinstance(x, tuple) and x[1] == ca for x in seen), key + "received-packet-without-peer-address")
     check_rx(sym, key, mode, seen, [p.packed for p in pkts], "to server")
     if len(pkts) >= 2:
         sym.cover("multi-packet")
@@ -283,8 +282,6 @@ def h_pair(sym, mode, P, K, lims, maxlen):
               key + "client-did-not-get-queued-bytes")
     check_rx(sym, key + "to-server/", mode, srv.rxPkts.seen, [p.packed for p in cp], "to server")
     check_rx(sym, key + "to-client/", mode, cli.rxPkts.seen, [p.packed for p in sp], "to client")
-    sym.check(all(isinstance(x, tuple) and x[1] == ca for x in srv.rxPkts.seen),
-              key + "received-packet-without-peer-address")
     if len(cp) >= 2 and len(sp) >= 2:
         sym.cover("multi-packet")
     return True
